@@ -469,6 +469,9 @@ func c03Gen(h *H, specs []c14ColSpec) *c03Case {
 		if h.R.Intn(4) == 0 {
 			depth = 4 + h.R.Intn(12)
 		}
+		if h.R.Intn(10) == 0 {
+			depth = []int{16, 17, 18, 19, 32, 33, 64, 100}[h.R.Intn(8)] // "any depth"
+		}
 		p := &c03Pkt{kind: "exception"}
 		for i := 0; i < depth; i++ {
 			e := c03Exc(h)
